@@ -41,6 +41,11 @@ func c12(r *Report) {
 	upd := InstrEffect("record a resolved credential", func(in ssa.Instruction) bool { _, ok := in.(*ssa.MapUpdate); return ok })
 	r.Gate(Gate{ID: "C12.resolve.recorded-only-if-resolved", Fn: res, Effect: upd, Check: ErrCheck(Fn(pePkg, "", "resolveCredential"))})
 	r.Gate(Gate{ID: "C12.resolve.no-duplicate-descriptor", Fn: res, Effect: upd, Check: MapOKPol("", IsFalse)})
+	// ... and a second mapping for the same descriptor is an error, not something to skip: a surplus (possibly forged) entry is rejected
+	r.Refuse(Refuse{ID: "C12.resolve.duplicate-descriptor-is-rejected", Fn: res, Cond: MapOKPol("", IsTrue), Effect: SuccessReturn()})
+	// CredentialsRequired answers "no" only when the definition has no input descriptors at all (no constant false)
+	r.Gate(Gate{ID: "C12.credentials-required.false-only-without-descriptors", Fn: p.Func(pePkg, "PresentationDefinition", "CredentialsRequired"), Effect: ReturnsBool(0, false),
+		Check: CmpCheck("len(InputDescriptors) > 0 is false", token.LSS, IntV(0), LenV(FieldV("PresentationDefinition", "InputDescriptors")), false)})
 	rc := p.Func(pePkg, "", "resolveCredential")
 	nested := CmpCheck("mapping.PathNested == nil is false", token.EQL, FieldV("InputDescriptorMappingObject", "PathNested"), NilV(), false)
 	r.Gate(Gate{ID: "C12.resolveCredential.path-resolves", Fn: rc, Effect: ReturnsNonNil(0), Check: ErrCheck(Fn("github.com/PaesslerAG/jsonpath", "", "Get"))})
